@@ -225,7 +225,7 @@ pub struct EvCase {
 }
 
 pub fn ev_strategy() -> impl Strategy<Value = EvCase> {
-    let op = prop_oneof![4 => (1u16..40).prop_map(EvOp::Burst), 1 => (1u8..4).prop_map(EvOp::Consume), 5 => Just(EvOp::Wait)];
+    let op = prop_oneof![4 => (1u16..40).prop_map(EvOp::Burst), 1 => (100u16..900).prop_map(EvOp::Burst), 1 => (1u8..4).prop_map(EvOp::Consume), 5 => Just(EvOp::Wait)];
     (1usize..6, 0usize..9, prop::collection::vec(op, 2..16)).prop_map(|(cap, initial, ops)| EvCase { cap, initial, ops })
 }
 
@@ -322,7 +322,7 @@ pub struct StopCase {
 }
 
 pub fn stop_strategy() -> impl Strategy<Value = StopCase> {
-    (1usize..6, 0usize..8, prop::collection::vec((1u16..30, prop::bool::weighted(0.7)), 0..6), 0u16..8, 1u8..4).prop_map(|(cap, initial, bursts, queued_at_stop, interval_ms)| StopCase { cap, initial, bursts, queued_at_stop, interval_ms })
+    (1usize..6, 0usize..8, prop::collection::vec((prop_oneof![4 => 1u16..30, 1 => 100u16..900], prop::bool::weighted(0.7)), 0..6), 0u16..8, 1u8..4).prop_map(|(cap, initial, bursts, queued_at_stop, interval_ms)| StopCase { cap, initial, bursts, queued_at_stop, interval_ms })
 }
 
 /// child side: run the history, print one JSON line {"violation": null | [signature, detail], "at_cap_at_stop": bool}
@@ -400,4 +400,4 @@ pub fn eval_stop(case: &StopCase, stats: &mut Stats) -> Outcome {
     Outcome::Pass
 }
 
-pub const RULE: &str = "three engines on instance APIs. rolling log: RollingLogger::create_new(dir, name, size limit 64..4096, count 1..6) on a directory left by an earlier run with the same settings (0..count files, possibly at the bound, current file possibly over the limit); ops Write(n), WriteMany([n..]), Restart (new instance on the same directory), 1-59 ops; after EVERY op: files of the log <= count and every file <= limit + largest single write so far. rule dumps: AuthorizationRulesForLogging::write_all(dir, max 1..6) on directories holding 0..9 earlier dumps, 1-9 calls with varying max; after every call: exactly one new dump, dumps <= max, survivors are the newest in creation order; in 20% of the histories a dangling symbolic link appears in the folder at some call (listing the folder may then fail): from then on only 'the number of dumps does not grow beyond max(max, what was there)' is asserted. event files: event_logger::start(dir, 1 ms, cap 1..5) over a directory pre-populated with 0..8 files; ops Burst(n events), Consume(k oldest files, as the reader does), Wait(6 flush intervals); after every wait: file count <= max(cap, initial) and a flush that found the directory at the cap created no file. the final flush: each history in a child process (stop() closes a process-wide queue): pre-populated directory, bursts with or without waiting, then 0-7 events queued and stop() at once; after the logger task has ended: file count <= max(cap, initial). non-trivial: history that reaches the bound and continues, or starts at/over it, or stops at the cap with events queued; distinct by hash of the history.";
+pub const RULE: &str = "three engines on instance APIs. rolling log: RollingLogger::create_new(dir, name, size limit 64..4096, count 1..6) on a directory left by an earlier run with the same settings (0..count files, possibly at the bound, current file possibly over the limit); ops Write(n), WriteMany([n..]), Restart (new instance on the same directory), 1-59 ops; after EVERY op: files of the log <= count and every file <= limit + largest single write so far. rule dumps: AuthorizationRulesForLogging::write_all(dir, max 1..6) on directories holding 0..9 earlier dumps, 1-9 calls with varying max; after every call: exactly one new dump, dumps <= max, survivors are the newest in creation order; in 20% of the histories a dangling symbolic link appears in the folder at some call (listing the folder may then fail): from then on only 'the number of dumps does not grow beyond max(max, what was there)' is asserted. event files: event_logger::start(dir, 1 ms, cap 1..5) over a directory pre-populated with 0..8 files; ops Burst(n events, 1-39 or 100-899), Consume(k oldest files, as the reader does), Wait(6 flush intervals); after every wait: file count <= max(cap, initial) and a flush that found the directory at the cap created no file. the final flush: each history in a child process (stop() closes a process-wide queue): pre-populated directory, bursts with or without waiting, then 0-7 events queued and stop() at once; after the logger task has ended: file count <= max(cap, initial). non-trivial: history that reaches the bound and continues, or starts at/over it, or stops at the cap with events queued; distinct by hash of the history.";
